@@ -746,6 +746,8 @@ func c13Short(s []byte) string {
 
 var c13Judged uint64
 
+var c13LongLivedParser interpreter.DefaultOpcodeParser
+
 func c13JudgeScript(c *mon.Ctx, in *c13Script) {
 	ownerEditsDecodedEmpties(c)
 	if c13Judged++; c13Judged%64 == 0 && len(in.Script) != 0 { // the empty script, again and again between the others
@@ -867,7 +869,13 @@ func c13JudgeScript(c *mon.Ctx, in *c13Script) {
 	}
 
 	// ---- Parse / Unparse ------------------------------------------------
-	var parser interpreter.DefaultOpcodeParser
+	// one parser value serves script after script, as a long-lived engine's does
+	// (every fourth script gets a parser of its own): what Unparse returned for
+	// an earlier script belongs to the caller and is looked at again later
+	parser := &c13LongLivedParser
+	if c13Judged%4 == 3 {
+		parser = &interpreter.DefaultOpcodeParser{}
+	}
 	var parsed interpreter.ParsedScript
 	if c.Try("interpreter.(*DefaultOpcodeParser).Parse", func() { parsed, err = parser.Parse(scr) }) {
 		switch {
@@ -902,6 +910,10 @@ func c13JudgeScript(c *mon.Ctx, in *c13Script) {
 					c.Violationf("C13:unparse:bytes-differ", "Unparse(Parse(%s)) returned different bytes", c13Short(s))
 				default:
 					c.Count("parse:unparse-identical")
+					if len(s) > 0 {
+						kept := un
+						c.Retain("script returned by Unparse", func() []byte { return *kept })
+					}
 					if hasRet {
 						c.Count("parse:unparse-identical-with-opreturn")
 					}
